@@ -13,7 +13,21 @@ import (
 	"time"
 )
 
-const verifRoot = "/verif"
+// repoRoot is the tree under test; GOSMT_REPO points development runs at a scratch worktree (the
+// registered commands never set it).
+var repoRoot = func() string {
+	if r := os.Getenv("GOSMT_REPO"); r != "" {
+		return r
+	}
+	return "/repo"
+}()
+
+var verifRoot = func() string {
+	if r := os.Getenv("GOSMT_ROOT"); r != "" {
+		return r // development copies only; the registered commands never set it
+	}
+	return "/verif"
+}()
 
 func main() {
 	if len(os.Args) < 2 {
@@ -120,6 +134,7 @@ func cmdRun(args []string) int {
 			h := effective(h0, *tier)
 			eng.known = nil
 			eng.knownOpen = map[string]bool{}
+			eng.knownIDs = nil
 			eng.loadKnown(filepath.Join(verifRoot, "known_findings.json"), h.Prop)
 			res := eng.RunHarness(h, *workers, time.Now().Add(time.Duration(*budget)*time.Second), 2)
 			printResult(res)
